@@ -116,5 +116,51 @@ def findall_leading_digits(interp, pattern, string, *a):
     return [Sym(d)]
 
 
+
+
+def _flatten_concat(e):
+    if z3.is_app(e) and e.decl().kind() == z3.Z3_OP_SEQ_CONCAT:
+        out = []
+        for c in e.children():
+            out.extend(_flatten_concat(c))
+        return out
+    return [e]
+
+
+def split_star_or_space(interp, pattern, string, *a, **kw):
+    """re.split(" \\* | ", s): for a symbolic string that is a concatenation of literal pieces and symbolic atoms
+    which provably contain no space (so every separator lies inside a literal piece)"""
+    if not isinstance(string, Sym):
+        return re.split(pattern, string, *a, **kw)
+    if pattern != " \\* | ":
+        raise Unsupported("re.split pattern %r on a symbolic string" % (pattern,))
+    p = cur()
+    pieces = _flatten_concat(z3.simplify(string.e))
+    items = [[]]          # list of lists of z3 string terms
+    for pc in pieces:
+        if z3.is_string_value(pc):
+            parts = re.split(pattern, pc.as_string())
+            for j, lit in enumerate(parts):
+                if j > 0:
+                    items.append([])
+                if lit != "":
+                    items[-1].append(z3.StringVal(lit))
+        else:
+            if p.branch(z3.Contains(pc, z3.StringVal(" "))):
+                raise Unsupported("re.split: symbolic piece may contain a space")
+            items[-1].append(pc)
+    # a separator could also be formed across a literal/atom border only if an atom contained a space: excluded above.
+    out = []
+    for it in items:
+        if not it:
+            out.append("")
+        elif len(it) == 1:
+            out.append(wrap(it[0]))
+        else:
+            out.append(wrap(z3.Concat(*it)))
+    return out
+
+
 def install(interp):
     interp.register_stub(re.findall, findall_leading_digits)
+    interp.register_stub(re.split, split_star_or_space)
